@@ -116,3 +116,4 @@ def run(chk):
     c04.rule_pairs(chk)
     c03.rule_start(chk)
     c03.rule_once(chk)
+    c03.rule_truthful(chk)  # 'outcome statuses' of the emitted tree are those of the executed actions
